@@ -116,6 +116,138 @@ def parse_axis(s):
             'affine': p[8] != 'NOT-AFFINE', 'S': p[8]}
 
 
+# ------------------------------------------------------------------ hidden state on argument / result objects
+def _seq_rng(line):
+    import hashlib, random
+    return random.Random(int.from_bytes(hashlib.sha256(line.encode()).digest()[:8], 'little'))
+
+
+def snap(obj):
+    """observable state of an argument object (value, unit label), for before/after comparison"""
+    T = ts()
+    if obj is None or isinstance(obj, (int, str)) and not isinstance(obj, T.Frequency):
+        return repr(obj)
+    if isinstance(obj, T.UniformTime):
+        o = axis_obs(obj)
+        return 'U:%s' % sorted(o.items())
+    if isinstance(obj, T.TimeInterface):
+        a = np.asarray(obj).view(np.ndarray)
+        return 'T:%s:%s:%s' % (obj.time_unit, getattr(obj, '_conversion_factor', None), a.tobytes().hex())
+    if isinstance(obj, T.Frequency):
+        return 'F:%s' % f2x(float(obj))
+    if isinstance(obj, float):
+        return f2x(obj)
+    if isinstance(obj, np.ndarray):
+        return 'A:%s:%s' % (obj.dtype, obj.tobytes().hex()[:4000])
+    return repr(obj)
+
+
+def exercise(obj, r):
+    """read an object through its accessors / converters, each possibly twice, in an order drawn from r;
+    none of these may change what the object means when it is used afterwards"""
+    T = ts()
+    ops = []
+    if isinstance(obj, T.Frequency):
+        us = ['ms', 's', 'ns', 'us', 'ps', 'm']
+        ops = [lambda u=u: obj.to_period(u) for u in r.sample(us, 3)] + [
+            lambda: obj.to_period(), lambda: float(obj), lambda: repr(obj), lambda: obj * 2, lambda: T.Frequency(obj),
+            lambda: 1 / obj, lambda: obj.to_period(time_unit=r.choice(us))]
+    elif isinstance(obj, T.UniformTime):
+        ops = [lambda: obj.sampling_rate.to_period(r.choice(['ms', 's', 'us', 'm'])), lambda: obj.sampling_rate.to_period(),
+               lambda: float(obj.duration), lambda: float(obj.sampling_interval), lambda: repr(obj.t0), lambda: len(obj),
+               lambda: obj.copy(), lambda: T.UniformTime(obj), lambda: obj[0], lambda: obj.min(), lambda: obj.max(),
+               lambda: obj.index_at(obj.t0), lambda: obj.at(obj.t0), lambda: T.TimeArray(obj), lambda: obj + obj.sampling_interval,
+               lambda: obj == obj, lambda: T.UniformTime(obj, time_unit=r.choice(UNITS)),
+               lambda: T.TimeSeries(np.zeros(len(obj), dtype=np.int8), time=obj)]
+    elif isinstance(obj, T.TimeSeries):
+        ops = [lambda: obj.time, lambda: obj.sampling_rate.to_period(r.choice(['ms', 's', 'us'])), lambda: float(obj.duration),
+               lambda: float(obj.sampling_interval), lambda: len(obj), lambda: obj.time.copy(), lambda: repr(obj.t0),
+               lambda: obj.copy(), lambda: obj.time.sampling_rate.to_period('ms'), lambda: T.UniformTime(obj.time)]
+    elif isinstance(obj, T.TimeInterface):
+        ops = [lambda: float(obj), lambda: int(obj), lambda: repr(obj), lambda: obj + obj, lambda: obj - obj, lambda: obj == obj,
+               lambda: obj * 2, lambda: obj.copy(), lambda: T.TimeArray(obj), lambda: T.TimeArray(obj, time_unit=r.choice(UNITS)),
+               lambda: np.asarray(obj), lambda: obj.max(), lambda: obj < obj]
+    r.shuffle(ops)
+    with np.errstate(all='ignore'):
+        for op in ops:
+            for _ in range(r.choice([1, 1, 2])):
+                try:
+                    op()
+                except Exception:   # noqa  (an accessor refusing is not this check's business)
+                    pass
+
+
+class mem_guard:
+    """soft address-space limit around calls into the implementation: a defect that asks for an absurd
+    number of samples then raises MemoryError (reported as a failure) instead of getting the harness killed"""
+    LIMIT = 6 << 30
+
+    def __enter__(self):
+        import resource
+        self.res = resource
+        self.old = resource.getrlimit(resource.RLIMIT_AS)
+        try:
+            with open('/proc/self/statm') as f:
+                cur = int(f.read().split()[0]) * resource.getpagesize()
+            soft = cur + self.LIMIT
+            if self.old[1] != resource.RLIM_INFINITY:
+                soft = min(soft, self.old[1])
+            resource.setrlimit(resource.RLIMIT_AS, (soft, self.old[1]))
+        except Exception:   # noqa
+            pass
+        return self
+
+    def __exit__(self, *a):
+        try:
+            self.res.setrlimit(self.res.RLIMIT_AS, self.old)
+        except Exception:   # noqa
+            pass
+
+
+def construct_seq(build_args, construct, canon, line):
+    """the constructor under hidden-state scrutiny.  build_args() -> fresh kwargs; construct(kw) -> object.
+    1. arguments are built once, read through their accessors, snapshotted; 2. the object is constructed from them
+    twice (reuse); 3. once more from fresh, untouched arguments; 4. the first result is read through ITS accessors and
+    canonicalised again.  Everything must agree and the arguments must be unchanged.  Returns the canonical string
+    (or an error string), or 'SEQ <symptom> ...' naming the first disagreement."""
+    r = _seq_rng(line)
+    with np.errstate(all='ignore'), mem_guard():
+        kw = build_args(False)
+        for v in kw.values():
+            exercise(v, r)
+        before = {k: snap(v) for k, v in kw.items()}
+
+        def run(k):
+            try:
+                obj = construct(k)
+                return obj, 'ok ' + canon(obj)
+            except Exception as e:  # noqa
+                from common import err_kind
+                return None, 'err ' + err_kind(e)
+        o1, c1 = run(kw)
+        mid = {k: snap(v) for k, v in kw.items()}
+        if mid != before:
+            bad = sorted(k for k in kw if mid[k] != before[k])
+            return 'SEQ argument-mutated %s: %s -> %s' % (bad[0], before[bad[0]][:80], mid[bad[0]][:80])
+        for v in kw.values():
+            exercise(v, r)
+        o2, c2 = run(kw)
+        if c2 != c1:
+            return 'SEQ reuse-differs first=%s second=%s' % (c1, c2)
+        o3, c3 = run(build_args(True))
+        if c3 != c1:
+            return 'SEQ fresh-differs used=%s fresh=%s' % (c1, c3)
+        if o1 is not None:
+            exercise(o1, r)
+            try:
+                c4 = 'ok ' + canon(o1)
+            except Exception as e:  # noqa
+                c4 = 'err-on-reread ' + type(e).__name__
+            if c4 != c1:
+                return 'SEQ result-changes-on-read before=%s after=%s' % (c1, c4)
+        return c1
+
+
 def intended(model):
     return (model or '').split(' | ')[0]
 
@@ -357,24 +489,35 @@ def predicted_sizes_ok(sp):
     return True
 
 
-def make_uniform_case(sp):
+def shared_real(v, shared, fresh):
+    """the python object for a tagged value; inside a group of constructions that SHARE their argument
+    objects the same object is handed out every time (unless a fresh one is asked for)"""
+    if fresh or shared is None or v is None or v[0] not in ('T', 'F'):
+        return real(v)
+    if v not in shared:
+        shared[v] = real(v)
+    return shared[v]
+
+
+def make_uniform_case(sp, shared=None):
     T = ts()
     axis = call(lambda: real_axis(sp['axis']))
     if isinstance(axis, str):
         return None
     axis_tok = '-' if axis is None else tok_axis_obj(axis)
-    kw = {}
-    if axis is not None:
-        kw['data'] = axis
-    if sp['length'] is not None:
-        kw['length'] = sp['length']
-    for k, name in (('duration', 'duration'), ('rate', 'sampling_rate'), ('interval', 'sampling_interval'), ('t0', 't0')):
-        if sp[k] is not None:
-            kw[name] = real(sp[k])
-    if sp['unit'] != 'none':
-        kw['time_unit'] = 'fortnight' if sp['unit'] == 'bad' else sp['unit']
-    with np.errstate(all='ignore'):
-        impl = call(lambda: 'ok ' + canon_axis(T.UniformTime(**kw)))
+    def build_args(fresh):
+        kw = {}
+        if axis is not None:
+            kw['data'] = real_axis(sp['axis'])
+        if sp['length'] is not None:
+            kw['length'] = sp['length']
+        for k, name in (('duration', 'duration'), ('rate', 'sampling_rate'), ('interval', 'sampling_interval'), ('t0', 't0')):
+            if sp[k] is not None:
+                kw[name] = shared_real(sp[k], shared, fresh)
+        if sp['unit'] != 'none':
+            kw['time_unit'] = 'fortnight' if sp['unit'] == 'bad' else sp['unit']
+        return kw
+    impl = construct_seq(build_args, lambda kw: T.UniformTime(**kw), canon_axis, 'U ' + spec_line(sp, axis_tok))
     meta = {'kind': 'uniform', 'spec': sp}
     if axis is not None:
         meta['axis_obs'] = {k: v for k, v in axis_obs(axis).items() if k not in ('affine', 'S')}
@@ -438,16 +581,18 @@ def parse_series(s):
     return {'unit': p[1], 't0': int(p[2]), 'dt': int(p[3]), 'rate': x2f('x' + p[4]), 'time': parse_axis(p[5])}
 
 
-def make_series_case(sp):
+def make_series_case(sp, shared=None):
     T = ts()
-    kw = {}
-    for k, name in (('t0', 't0'), ('interval', 'sampling_interval'), ('rate', 'sampling_rate'), ('duration', 'duration')):
-        if sp[k] is not None:
-            kw[name] = real(sp[k])
-    if sp['unit'] != 'default':
-        kw['time_unit'] = 'fortnight' if sp['unit'] == 'bad' else sp['unit']
-    with np.errstate(all='ignore'):
-        impl = call(lambda: 'ok ' + canon_series(T.TimeSeries(series_data(sp['n'], sp['ndim']), **kw)))
+    def build_args(fresh):
+        kw = {}
+        for k, name in (('t0', 't0'), ('interval', 'sampling_interval'), ('rate', 'sampling_rate'), ('duration', 'duration')):
+            if sp[k] is not None:
+                kw[name] = shared_real(sp[k], shared, fresh)
+        if sp['unit'] != 'default':
+            kw['time_unit'] = 'fortnight' if sp['unit'] == 'bad' else sp['unit']
+        return kw
+    impl = construct_seq(build_args, lambda kw: T.TimeSeries(series_data(sp['n'], sp['ndim']), **kw), canon_series,
+                         'S %r' % sorted((k, str(v)) for k, v in sp.items()))
     line = 'C02 series %d %s %s %s %s %s' % (sp['n'], tok(sp['t0']), tok(sp['interval']), tok(sp['rate']), tok(sp['duration']),
                                             {'default': 's'}.get(sp['unit'], sp['unit']))
     p = tuple(int(sp[k] is not None) for k in ('interval', 'rate', 'duration'))
@@ -462,13 +607,15 @@ def make_series_from_time_case(sp):
     axis = call(lambda: real_axis(sp['axis']))
     if isinstance(axis, str):
         return None
-    kw = {'time': axis}
-    if sp['t0'] is not None:
-        kw['t0'] = real(sp['t0'])
-    if sp['unit'] != 'default':
-        kw['time_unit'] = None if sp['unit'] == 'none' else sp['unit']
-    with np.errstate(all='ignore'):
-        impl = call(lambda: 'ok ' + canon_series(T.TimeSeries(series_data(sp['m'], 1), **kw)))
+    def build_args(fresh):
+        kw = {'time': real_axis(sp['axis'])}
+        if sp['t0'] is not None:
+            kw['t0'] = real(sp['t0'])
+        if sp['unit'] != 'default':
+            kw['time_unit'] = None if sp['unit'] == 'none' else sp['unit']
+        return kw
+    impl = construct_seq(build_args, lambda kw: T.TimeSeries(series_data(sp['m'], 1), **kw), canon_series,
+                         'ST %r' % sorted((k, str(v)) for k, v in sp.items()))
     line = 'C02 series_from_time %s %d %s %s' % (tok_axis_obj(axis), sp['m'], tok(sp['t0']),
                                                 {'default': 's'}.get(sp['unit'], sp['unit']))
     meta = {'kind': 'series_from_time', 'spec': sp,
@@ -563,6 +710,35 @@ def cases(rng, tier, seed):
         c = make_uniform_case(sp)
         if c:
             out.append(c)
+    # --- groups of constructions that SHARE one rate / interval / duration / t0 object (axis, series, other units,
+    # other argument patterns, in a shuffled order): each must give what fresh objects give
+    for _ in range(60 * k):
+        u0 = rng.choice(UNITS)
+        iv = gen_interval(rng, u0)
+        ps = max(1, int(iv[1] * FACTOR[u0])) if iv[0] == 'f' else iv[1] * FACTOR[u0]
+        if ps >= LIM // 64:
+            continue
+        nmax = max(1, min(3000, LIM // 64 // ps))
+        I = ('T', rng.choice(UNITS), int(ps))
+        F = ('F', float(1e12 / ps))
+        D = ('T', rng.choice(UNITS), max(2, int(ps) * rng.randint(1, nmax) - rng.choice([0, 0, int(ps) // 2])))
+        T0 = ('T', rng.choice(UNITS), rng.randint(-10**15, 10**15))
+        shared = {}
+        group = [('u', {'axis': None, 'length': rng.randint(1, nmax), 'duration': None, 'rate': F, 'interval': None, 't0': T0, 'unit': rng.choice(UNITS)}),
+                 ('s', {'n': rng.randint(1, nmax), 'ndim': 1, 't0': T0, 'interval': None, 'rate': F, 'duration': None, 'unit': rng.choice(UNITS)}),
+                 ('u', {'axis': None, 'length': None, 'duration': D, 'rate': F, 'interval': None, 't0': None, 'unit': rng.choice(UNITS)}),
+                 ('u', {'axis': None, 'length': rng.randint(1, nmax), 'duration': None, 'rate': None, 'interval': I, 't0': T0, 'unit': rng.choice(UNITS + ['none'])}),
+                 ('s', {'n': rng.randint(1, nmax), 'ndim': 2, 't0': None, 'interval': I, 'rate': None, 'duration': None, 'unit': rng.choice(UNITS)}),
+                 ('u', {'axis': None, 'length': None, 'duration': D, 'rate': None, 'interval': I, 't0': T0, 'unit': 'none'}),
+                 ('u', {'axis': None, 'length': rng.randint(1, max(1, min(nmax, D[2] // 2))), 'duration': D, 'rate': None, 'interval': None, 't0': None, 'unit': rng.choice(UNITS)})]
+        rng.shuffle(group)
+        prefix = []
+        for kind, sp in group[:rng.randint(3, 7)]:
+            c = make_uniform_case(sp, shared) if kind == 'u' else make_series_case(sp, shared)
+            prefix.append([kind, sp])
+            if c:
+                c.meta['group'] = list(prefix)     # the replay re-runs the constructions that shared the objects
+                out.append(c)
     # --- series
     for sp in [{'n': 100, 'ndim': 1, 't0': None, 'interval': ('f', 2.2), 'rate': None, 'duration': None, 'unit': 'm'},
                {'n': 10, 'ndim': 1, 't0': None, 'interval': None, 'rate': None, 'duration': ('i', 10), 'unit': 'default'},
@@ -593,6 +769,16 @@ def cases(rng, tier, seed):
         impl = call(lambda: 'ok %d' % int(T.Frequency(hz).to_period()))
         out.append(Case('C02 to_period %s' % f2x(hz)[1:], impl, 'frequency/to_period', cmp=cmp_intended,
                         meta={'kind': 'to_period', 'hz': hz}))
+        hz2 = float(gen_rate(rng)[1])
+        us = [rng.choice(['ps', 'ns', 'us', 'ms', 's', 'm']) for _ in range(rng.randint(2, 5))]
+        fobj = T.Frequency(hz2)
+
+        def one(u):
+            with np.errstate(all='ignore'):
+                v = call(lambda: str(int(fobj.to_period(u) if u != 'ps' or rng.random() < 0.5 else fobj.to_period())))
+            return 'err' if v.startswith('err') else v
+        out.append(Case('C02 to_period_seq %s %s' % (f2x(hz2)[1:], ','.join(us)), 'ok ' + ','.join(one(u) for u in us),
+                        'frequency/to_period_seq', meta={'kind': 'to_period_seq', 'hz': hz2, 'units': us}))
         dt = rng.choice([rng.randint(1, 10**6), rng.randint(1, 10**13), 333333, 132000000000000, 1428571428571])
         n = rng.randint(1, min(10**5, max(1, LIM // dt)))
         dur = n * dt + rng.choice([0, 0, 1, 2, -1, rng.randint(-dt, dt), dt // 2])
@@ -747,6 +933,17 @@ def check_case(c):
     def fail(sym, what):
         return Failure('%s/%s' % (c.clause, sym), '%s: %s  [op: %s] impl=%s' % (c.clause, what, c.line[:220], c.impl[:160]),
                        {'kind': kind, 'clause': c.clause, 'meta': m, 'key': '%s/%s' % (c.clause, sym)}, case=c)
+    if c.impl.startswith('SEQ '):
+        return fail('hidden-state/' + c.impl.split()[1], 'the result depends on what was done before with the same objects: ' + c.impl[:300])
+    if kind == 'to_period_seq':
+        # every call on the one object must give what a fresh object gives: nearest whole number of the unit
+        got = c.impl[3:].split(',')
+        for u, g in zip(m['units'], got):
+            P = Fr(10**12, FACTOR[u]) / Fr(m['hz'])
+            if g == 'err' or abs(int(g) - P) > Fr(1, 2) + P / 2**50:
+                return fail('hidden-state/call-order', 'to_period(%s) in the sequence %s on one Frequency(%r) gave %s, a fresh object gives about %.3f' % (
+                    u, m['units'], m['hz'], g, float(P)))
+        return None
     if kind == 'uniform':
         sp = m['spec']
         pat = pattern_of(sp)
@@ -913,7 +1110,11 @@ def replay(d):
         fs, _ = twin_checks(common.make_rng(PID, 0, 'replay'), 'quick', [c])
         fs = [f for f in fs if f.replay['how'] == d['how'] and f.key == d.get('key', f.key)]
         return fs[0] if fs else None
-    if kind == 'uniform':
+    if m and m.get('group'):
+        shared, c = {}, None
+        for gk, gsp in m['group']:
+            c = make_uniform_case(gsp, shared) if gk == 'u' else make_series_case(gsp, shared)
+    elif kind == 'uniform':
         c = make_uniform_case(m['spec'])
     elif kind == 'series':
         c = make_series_case(m['spec'])
@@ -922,6 +1123,10 @@ def replay(d):
     elif kind == 'to_period':
         impl = call(lambda: 'ok %d' % int(ts().Frequency(m['hz']).to_period()))
         c = Case('C02 to_period', impl, d['clause'], meta=m)
+    elif kind == 'to_period_seq':
+        fobj = ts().Frequency(m['hz'])
+        impl = 'ok ' + ','.join(call(lambda u=u: str(int(fobj.to_period(u)))) for u in m['units'])
+        c = Case('C02 to_period_seq', impl, d['clause'], meta=m)
     elif kind == 'freq':
         impl = call(lambda: 'ok ' + f2x(float(ts().Frequency(m['f'][1], time_unit=m['unit'])))[1:])
         c = Case('C02 freq', impl, d['clause'], meta=m)
